@@ -1,3 +1,4 @@
+import Mp.Cue
 import Mp.FactChecks
 import Mp.EscBridge
 /-! Tie (a), continued: completeness of the proved return-kind lists against the REGENERATED descriptor table (a function
@@ -27,6 +28,20 @@ theorem remaining_rows : ∀ fd ∈ funcTable,
 theorem model_unescape_rules : (Mp.unescapeRules.map (fun r => (r.1.toNat, r.2.toNat))).Perm rulesOfUnescape := by decide
 theorem model_escape_rules : (Mp.byteRules.map (fun r => (r.1.toNat, r.2.toNat))).Perm rulesOfEscape := by decide
 
+/-- the kind switch of opPathIdent.Validate as the model has it (`Mp.primKind`, `Mp.kindOf`): every primitive cue kind of the model's
+    schema type is a case of the switch, alone or with the kinds that share its type, and the case names the type the model reports -/
+def goKindOf (k : String) : String :=
+  match k with
+  | "bool" => "BoolKind" | "string" => "StringKind" | "bytes" => "BytesKind" | "int" => "IntKind" | "float" => "FloatKind"
+  | "number" => "NumberKind" | "top" => "TopKind" | _ => "?"
+
+theorem kind_switch_pinned : cueKindTable = [(["BoolKind"], ["PT_Boolean"]), (["StringKind", "BytesKind"], ["PT_String"]),
+    (["NumberKind", "IntKind", "FloatKind"], ["PT_Number"]), (["TopKind"], ["PT_Any"]), (["StructKind"], ["PT_Object"]),
+    (["ListKind"], ["PT_Any"]), (["BottomKind"], []), (["default"], [])] := by decide
+
+theorem primKind_matches_switch : ∀ k ∈ ["bool", "string", "bytes", "int", "float", "number", "top"],
+    ∃ row ∈ cueKindTable, goKindOf k ∈ row.1 ∧ (Mp.primKind k).map (fun t => "PT_" ++ t) = row.2.head? := by decide
+
 /-! axiom audit (one line per theorem: a theorem that no longer checks is missing from the output) -/
 #print axioms boolean_rows_covered
 #print axioms number_rows_covered
@@ -34,4 +49,6 @@ theorem model_escape_rules : (Mp.byteRules.map (fun r => (r.1.toNat, r.2.toNat))
 #print axioms remaining_rows
 #print axioms model_unescape_rules
 #print axioms model_escape_rules
+#print axioms kind_switch_pinned
+#print axioms primKind_matches_switch
 end Mp.FactChecks
